@@ -19,6 +19,11 @@ ExemptK == 3000000      \* annual exempt amount 3,000.00
 \* half-penny midpoint whenever k does
 HoldK(k) == LET a == FAbs(k) IN 8 * (a - 100000 * (a \div 100000)) + 8000
 UnitK(k) == LET a == FAbs(k) IN a - 1000 * (a \div 1000)
+\* a second holding, of 300 shares, whose average does NOT terminate and lies just BELOW a half-penny midpoint:
+\* total cost 3000 j + 1499 thousandths, average 10 j + 4.99667 thousandths -> j pence; rounding it first to four or
+\* five decimals and then to pence (double rounding) gives j + 1
+Hold2Q == 300
+Hold2K(k) == LET a == FAbs(k) IN 3000 * (a - 1000 * (a \div 1000) + 1) + 1499
 
 Laws == \A k \in Values : RoundLaw(k)
 ASSUME Laws
@@ -38,7 +43,8 @@ Emit ==
                             \* is 1,250,000 pounds + UnitK(k) thousandths (so it lands on a midpoint whenever k does)
                             unit_k |-> UnitK(k), s104_unit_gbp |-> GbpBig(1250000, UnitK(k)),
                             \* a holding of 8 shares whose total cost is HoldK(k): average cost per share
-                            hold_k |-> HoldK(k), hold_avg_gbp |-> GbpRatio(HoldK(k), 8)])>>)
+                            hold_k |-> HoldK(k), hold_avg_gbp |-> GbpRatio(HoldK(k), 8),
+                            hold2_k |-> Hold2K(k), hold2_avg_gbp |-> GbpRatio(Hold2K(k), Hold2Q)])>>)
 ASSUME Emit
 Labels ==
   \A Y \in 1900..2100 : PrintT(<<"LBL", ToJson([year |-> Y, label |-> TaxYearLabel(Y), date |-> DateUk(Y, 4, 5)])>>)
